@@ -38,6 +38,12 @@ class Arg:
         return Symbol(self.bitvec[0])
 
 
+def is_return_symbol(name: str) -> bool:
+    """True for the names of the return bits (_ret, _ret.0, _ret.1.0, ...); a variable or an argument of
+    the function may be called _retry or _ret_old"""
+    return name == "_ret" or name.startswith("_ret.")
+
+
 Args = List[Arg]
 BoolExpList = List[Tuple[Symbol, Boolean]]
 LogicFun = Tuple[str, Args, Arg, BoolExpList]
